@@ -22,6 +22,22 @@ def _subst(text: str, amap: dict) -> str:
                   lambda m: amap.get(m.group(0), m.group(0)), text)
 
 
+def peel(e: ast.AST) -> ast.AST:
+    """Strip wrappers that keep the truth value: bool(x), `True if x else False`, `not not x`."""
+    while True:
+        if isinstance(e, ast.Call) and dotted(e.func) == "bool" and len(e.args) == 1 and not e.keywords:
+            e = e.args[0]
+            continue
+        if isinstance(e, ast.IfExp) and isinstance(e.body, ast.Constant) and e.body.value is True and \
+                isinstance(e.orelse, ast.Constant) and e.orelse.value is False:
+            e = e.test
+            continue
+        if isinstance(e, ast.UnaryOp) and isinstance(e.op, ast.Not) and isinstance(e.operand, ast.UnaryOp) and isinstance(e.operand.op, ast.Not):
+            e = e.operand.operand
+            continue
+        return e
+
+
 class Truth:
     def __init__(self, prog: Program, flows, max_alts: int = 24):
         self.prog = prog
@@ -42,7 +58,7 @@ class Truth:
                     continue
                 if want == "nonnone" and c is None:
                     continue
-            out.append((s, st, fl.expand(s.value, st)))
+            out.append((s, st, peel(fl.expand(s.value, st))))
         return out
 
     def true_alternatives(self, fi: FuncInfo, depth: int = 3, want: str = "truthy") -> list:
